@@ -10,6 +10,7 @@ A property module provides:
   nontrivial(case) -> bool
 optional: known_class(case, mode, obs) -> slug | None ; neighbours(case, rng) -> [case] ; shrink(case) -> [case]
           normalize(obs) ; extra_checks(ctx) -> [(ok, name, detail)] (e.g. K1 table theorems) ; per_case_timeout ; budget
+          EXTRA_PROP_FILES (further theorem files, built and audited with Print Assumptions like PROP_FILE)
 """
 import collections
 import json
@@ -60,7 +61,7 @@ class Run:
         pid = mod.ID.lower()
         mine = set(getattr(mod, 'K1_DEPENDS', [])) | {'consts', pid, pid + '_translate'}
         closure = set()
-        for f in [mod.PROP_FILE] + list(mod.EVAL_FILES):
+        for f in [mod.PROP_FILE] + list(mod.EVAL_FILES) + list(getattr(mod, 'EXTRA_PROP_FILES', [])):
             closure.update(core.coq_requires(f))
         for name, ok, lg in translate.regenerate(details=True):
             uses = any('Generated/%s.v' % g in closure for g in K1_FILES.get(name, []))
@@ -75,6 +76,13 @@ class Run:
         self.proof_ok = ok
         if not ok:
             self.broken.append('theorem file %s: %s' % (mod.PROP_FILE, _last_error(out)))
+        # optional further theorem files of the same property (EXTRA_PROP_FILES): built and audited like PROP_FILE
+        self.extra_props = list(getattr(mod, 'EXTRA_PROP_FILES', []))
+        for f in self.extra_props:
+            ok, out = core.coq_build([f[:-2] + '.vo'])
+            if not ok:
+                self.proof_ok = False
+                self.broken.append('theorem file %s: %s' % (f, _last_error(out)))
         bad = core.coq_hygiene()
         if bad:
             raise core.MachineryError('forbidden declarations in the development:\n' + '\n'.join(bad))
@@ -85,7 +93,18 @@ class Run:
             if not ok:
                 self.proof_ok = False
                 self.broken.append('Print Assumptions outside the allow-list or failed: ' + out[-800:])
+            for i, f in enumerate(self.extra_props):
+                ok, ax, out = core.print_assumptions('%s_x%d' % (mod.ID, i), f)
+                self.axioms.update(ax)
+                if not ok:
+                    self.proof_ok = False
+                    self.broken.append('Print Assumptions (%s) outside the allow-list or failed: %s' % (f, out[-800:]))
         self.obligations, self.dep_files = core.count_obligations(mod.PROP_FILE)
+        for f in self.extra_props:
+            n, files = core.count_obligations(f)
+            new_files = [x for x in files if x not in self.dep_files]
+            self.dep_files = self.dep_files + new_files
+            self.obligations += _count_statements(new_files)      # only the files not counted yet
 
     # -- execution -----------------------------------------------------------
     def run_impl(self, cases):
@@ -171,6 +190,20 @@ class Run:
                 if verdict[mode][i] is False:
                     failures.append((i, mode))
         return impl, model, verdict, disagreements, failures
+
+
+def _count_statements(files):
+    import re
+    n = 0
+    for f in files:
+        try:
+            src = open(os.path.join(core.COQ, f)).read()
+        except FileNotFoundError:
+            continue
+        src = re.sub(r'\(\*.*?\*\)', '', src, flags=re.S)
+        n += len(re.findall(r'^\s*(?:Local\s+|Global\s+|#\[[^\]]*\]\s*)?(?:Theorem|Lemma|Corollary|Fact|Proposition|Example|Remark)\s+\w+',
+                            src, flags=re.M))
+    return n
 
 
 def _last_error(out):
@@ -322,6 +355,8 @@ def _main(mod, tier, seed, replay):
                         'impl': {m: term.show(impl[m][i])[:400] for m in mod.MODES},
                         'model': {m: (term.show(model[m][i])[:400] if model[m][i] is not None else None) for m in mod.MODES}})
     thm = core.theorem_names(mod.PROP_FILE)
+    for f in getattr(run, 'extra_props', []):
+        thm = thm + core.theorem_names(f)
     axioms_used = sorted({a for v in run.axioms.values() for a in v})
     trusted = [
         'Coq 8.16.1 kernel (coqc; vm_compute used for evaluating cases and for reflection over finite tables; no native_compute)',
